@@ -196,7 +196,8 @@ impl OutputFormat for XBin {
         let has_custom_font = (flags & FLAG_FONT) == FLAG_FONT;
         let is_compressed = (flags & FLAG_COMPRESS) == FLAG_COMPRESS;
         let use_ice = (flags & FLAG_NON_BLINK_MODE) == FLAG_NON_BLINK_MODE;
-        let extended_char_mode = (flags & FLAG_512CHAR_MODE) == FLAG_512CHAR_MODE;
+        // the 512 character mode needs the two fonts of the file: the VGA has no default font for it
+        let extended_char_mode = has_custom_font && (flags & FLAG_512CHAR_MODE) == FLAG_512CHAR_MODE;
 
         result.font_mode = if extended_char_mode { FontMode::FixedSize } else { FontMode::Single };
         result.palette_mode = if extended_char_mode { PaletteMode::Free8 } else { PaletteMode::Free16 };
